@@ -43,7 +43,7 @@ CHECKS = {'C05': {'level': 'exploration',
                          'covered; quadratic constraints use symmetric P only',
                          'the multiplier-dependent KKT residuals (tests 3-5) are not part of the statement and are '
                          'not judged'],
-         'deadline': {'quick': 240, 'thorough': 1200},
+         'deadline': {'quick': 480, 'thorough': 2400},
          'stages': [{'name': 'formulas',
                      'harness': 'c05_penalty',
                      'args': ['--stage', 'formulas'],
